@@ -97,12 +97,13 @@ struct World {
     closed_peers: Vec<SocketAddr>,
     leaks: Vec<String>,
     configured: bool,
+    bad_keepalive: bool,
 }
 
 impl World {
     fn new() -> World {
         let (ctl, proc_) = network::split();
-        World { ctl, proc_, hist: vec![], armed: vec![], accepted: vec![], notes: vec![], closed_peers: vec![], leaks: vec![], configured: false }
+        World { ctl, proc_, hist: vec![], armed: vec![], accepted: vec![], notes: vec![], closed_peers: vec![], leaks: vec![], configured: false, bad_keepalive: false }
     }
     fn pump(&mut self, ms: u64) {
         // a receive batch never spans two pumps: mark the boundary for every adapter
@@ -168,7 +169,9 @@ impl World {
     fn listen(&mut self, t: Transport) -> (ResourceId, SocketAddr) {
         use message_io::adapters::{framed_tcp::FramedTcpListenConfig, tcp::{TcpKeepalive, TcpListenConfig}, udp::UdpListenConfig};
         use message_io::network::TransportListen;
-        let ka = || TcpKeepalive::new().with_time(Duration::from_secs(30));
+        // every other configured node uses a keepalive time the OS rejects (> 32767 s): the library only warns
+        let secs = if self.bad_keepalive { 100_000 } else { 30 };
+        let ka = || TcpKeepalive::new().with_time(Duration::from_secs(secs));
         let addr: SocketAddr = "127.0.0.1:0".parse().unwrap();
         let (id, addr) = if self.configured {
             match t {
@@ -187,7 +190,8 @@ impl World {
     fn connect(&mut self, t: Transport, addr: SocketAddr) -> Endpoint {
         use message_io::adapters::{framed_tcp::FramedTcpConnectConfig, tcp::{TcpConnectConfig, TcpKeepalive}, udp::UdpConnectConfig};
         use message_io::network::TransportConnect;
-        let ka = || TcpKeepalive::new().with_time(Duration::from_secs(30));
+        let secs = if self.bad_keepalive { 100_000 } else { 30 };
+        let ka = || TcpKeepalive::new().with_time(Duration::from_secs(secs));
         let (ep, _) = if self.configured {
             match t {
                 Transport::Tcp => self.ctl.connect_with(TransportConnect::Tcp(TcpConnectConfig::default().with_keepalive(ka()).with_source_address("127.0.0.1:0".parse().unwrap())), addr).unwrap(),
@@ -569,6 +573,57 @@ fn scenario_endings(w: &mut World, t: Transport, k: u64, rng: &mut Rng) {
         peer_end(p, reset);
     };
     match k {
+        6 if t != Transport::Ws => {
+            // a flood: 300 connections are already queued when the listener is polled for the first time;
+            // each must be accepted (once) and, after the peers have gone, disconnected (once)
+            let mut flood: Vec<TcpStream> = vec![];
+            for _ in 0..300 {
+                if let Ok(s) = TcpStream::connect(addr) {
+                    flood.push(s);
+                }
+            }
+            w.pump(200);
+            let accepted_now = w.accepted.len();
+            if accepted_now != flood.len() {
+                w.leaks.push(format!("{} connections were queued at the listener, {} were accepted", flood.len(), accepted_now));
+            }
+            for s in flood.drain(..) {
+                if let Ok(a) = s.local_addr() {
+                    w.closed_peers.push(a);
+                }
+                drop(s);
+            }
+            w.pump(200);
+        }
+        4 if t == Transport::Ws => {
+            // an RFC 6455 style end: data, a Ping, more data and the Close frame in one write; the peer
+            // then keeps its TCP connection open waiting for the other side: the data must be delivered
+            // and the endpoint must end (Disconnected) without any further traffic
+            if let Some(RawPeer::Ws(mut s)) = raw_connect(w, t, addr) {
+                w.pump(30);
+                let _ = s.write(tungstenite::Message::Binary(vec![9u8; 11].into()));
+                let _ = s.write(tungstenite::Message::Ping(b"hi".to_vec().into()));
+                let _ = s.write(tungstenite::Message::Binary(vec![9u8; 12].into()));
+                let _ = s.close(None);
+                let _ = s.flush();
+                let peer_addr = s.get_ref().local_addr().ok();
+                if let Some(a) = peer_addr {
+                    w.closed_peers.push(a);
+                }
+                peers.push(RawPeer::Ws(s));
+                w.pump(100);
+                // judged now, while the peer's TCP connection is still open: nothing else will ever arrive
+                if let Some((ep, _)) = w.accepted.iter().find(|a| Some(a.0.addr()) == peer_addr).copied() {
+                    let msgs = w.hist.iter().filter(|i| matches!(i, Item::EvMessage(id, _) if *id == ep.resource_id())).count();
+                    if msgs != 2 {
+                        w.leaks.push(format!("{} of the 2 messages sent before the Close frame were delivered", msgs));
+                    }
+                    if w.ctl.is_ready(ep.resource_id()).is_some() {
+                        w.leaks.push(format!("the peer sent a Close frame but {} is still registered: no Disconnected", ep.resource_id()));
+                    }
+                }
+            }
+        }
         0 | 1 | 4 => {
             if let Some(p) = raw_connect(w, t, addr) {
                 w.pump(30);
@@ -790,16 +845,20 @@ fn oracle(items: &[Item], t: Transport) -> Result<(), String> {
     Ok(())
 }
 
-fn run_scenarios(out: &mut impl std::io::Write, seed: u64, n: u64) {
-    let mut rng = Rng::new(seed ^ 0x9e7);
+fn run_scenarios(out: &mut impl std::io::Write, seed: u64, n: u64, only: Option<u64>) {
     // warm-up (lazy statics, allocator) before the descriptor baseline is taken
     {
         let mut w = World::new();
         let mut r = Rng::new(1);
         scenario_conn(&mut w, Transport::Tcp, &mut r);
     }
-    const ENDINGS: u64 = 18; // 6 fixed endings x 3 stream transports, before the random scenarios
+    const ENDINGS: u64 = 21; // 7 fixed endings x 3 stream transports, before the random scenarios
     for i in 0..n + ENDINGS {
+        if only.map_or(false, |k| k != i) {
+            continue
+        }
+        // every scenario has its own generator state, so that `net one <seed> <i>` replays scenario i alone
+        let mut rng = Rng::new(seed ^ 0x9e7 ^ (i + 1).wrapping_mul(0x9E3779B97F4A7C15));
         let base = fds();
         let panics_before = panics();
         let fixed = i < ENDINGS;
@@ -811,6 +870,7 @@ fn run_scenarios(out: &mut impl std::io::Write, seed: u64, n: u64) {
         };
         let mut w = World::new();
         w.configured = if fixed { (i / 3) % 2 == 1 } else { rng.chance(1, 3) };
+        w.bad_keepalive = if fixed { (i / 3) % 4 == 3 } else { rng.chance(1, 2) };
         let configured = w.configured;
         let fds_with_node = fds();
         let res = std::panic::catch_unwind(std::panic::AssertUnwindSafe(|| {
@@ -939,7 +999,9 @@ fn main() {
     let out = std::io::stdout();
     let mut out = std::io::BufWriter::new(out.lock());
     match arg(1).as_str() {
-        "gen" => run_scenarios(&mut out, arg_u64(2, 1), arg_u64(3, 40)),
+        "gen" => run_scenarios(&mut out, arg_u64(2, 1), arg_u64(3, 40), None),
+        // one scenario of `gen <seed> <n>` alone, in its own process (used to locate a crash)
+        "one" => run_scenarios(&mut out, arg_u64(2, 1), arg_u64(3, 40), Some(arg_u64(4, 0))),
         "gen-race" => {
             let n = arg_u64(2, 24) as usize;
             for t in [Transport::Tcp, Transport::FramedTcp, Transport::Ws] {
